@@ -95,6 +95,11 @@ func newSim(t TB, prop string, begin bool, oracles ...Oracle) *Sim {
 	if err != nil {
 		infra("base world: %v", err)
 	}
+	return newSimOn(w, t, prop, begin, oracles...)
+}
+
+// newSimOn starts a case on a specific world (own genesis configuration).
+func newSimOn(w *chain.World, t TB, prop string, begin bool, oracles ...Oracle) *Sim {
 	s := &Sim{T: t, Prop: prop, W: w, C: chain.NewChain(w), Oracles: oracles, Labels: map[string]int{}, Excluded: map[string]int{}, sched: map[int64]bool{}}
 	for i, a := range w.Accounts {
 		did := chain.KeyDid(a.Priv)
